@@ -16,6 +16,22 @@ def translate(run):
     return True, ""
 
 
+def translate_src(which):
+    """the formulas read off the source text as terms over R (translate/tr_formulas_src.py): which = 'pmh' or 'set'"""
+    def run_it(run):
+        import tr_formulas_src
+        try:
+            txt = tr_formulas_src.generate_pmh(vlib.REPO) if which == "pmh" else tr_formulas_src.generate_set(vlib.REPO)
+        except Untranslatable as e:
+            return False, "a formula of the source is outside the expression subset or not where it is expected: %s" % e
+        path = os.path.join(vlib.COQ, "Gen", "PmhFormulasSrc.v" if which == "pmh" else "SetFormulasSrc.v")
+        old = open(path).read() if os.path.exists(path) else None
+        if old != txt:
+            open(path, "w").write(txt)
+        return True, ""
+    return run_it
+
+
 REAL_AXIOMS = ["ClassicalDedekindReals.sig_forall_dec", "ClassicalDedekindReals.sig_not_dec",
                "FunctionalExtensionality.functional_extensionality_dep", "Classical_Prop.classic"]
 
